@@ -234,6 +234,21 @@ func runCase(idx int, c *caseDesc) {
 			return
 		}
 		run.Count("lists_installed_in_two_steps", 1)
+	} else if len(rules) > 1 && caseNo%3 == 1 {
+		// the list replaces an EDITED version of one of its rules (same statistic parameters, other threshold): the old
+		// controller may lend its (still empty) statistic to at most one rule of the new list - siblings with equal
+		// statistic parameters must not end up metering on one shared window
+		k := 0
+		if c.Lead {
+			k = 1
+		}
+		old := *rules[k]
+		old.Threshold += 0.25
+		if _, err := flow.LoadRules([]*flow.Rule{&old}); err != nil {
+			run.Violation("C02/load-error", fmt.Sprintf("LoadRules failed for valid rules: %v", err), c)
+			return
+		}
+		run.Count("lists_replacing_an_edited_rule", 1)
 	}
 	if _, err := flow.LoadRules(rules); err != nil {
 		run.Violation("C02/load-error", fmt.Sprintf("LoadRules failed for valid rules: %v", err), c)
